@@ -492,8 +492,13 @@ def _run_sweep(ctx, case):
         return
     tt = t.to_tn()
     x0 = tt.torch().detach().clone()
-    rec, snap = [], []
-    orig_svd = torch.linalg.svd
+    rec, snap, qrec = [], [], []
+    orig_svd, orig_qr = torch.linalg.svd, torch.linalg.qr
+
+    def qr_w(A, *a, **k):
+        out = orig_qr(A, *a, **k)
+        qrec.append((A.detach().clone(), out[0].detach().clone(), out[1].detach().clone()))
+        return out
 
     def svd_w(A, *a, **k):
         if not snap:
@@ -501,12 +506,12 @@ def _run_sweep(ctx, case):
         out = orig_svd(A, *a, **k)
         rec.append((A.detach().clone(), out[0].detach().clone(), out[1].detach().clone(), out[2].detach().clone()))
         return out
-    torch.linalg.svd = svd_w
+    torch.linalg.svd, torch.linalg.qr = svd_w, qr_w
     try:
         kw = {} if case["rmax"] is None else {"rmax": case["rmax"]}
         r = safe(lambda: tt.round_tt(case["eps"], **kw))
     finally:
-        torch.linalg.svd = orig_svd
+        torch.linalg.svd, torch.linalg.qr = orig_svd, orig_qr
     if r[0] == "err":
         ctx.oracle("round_tt raised %s: %s" % (r[1], r[2]), case); return
     N = t.N
@@ -545,8 +550,24 @@ def _run_sweep(ctx, case):
         rk = tt.cores[mu].shape[0]
         tails += float((S[rk:] ** 2).sum())
     ctx.count("hypotheses of roundTT_within_eps validated (chainLO, SVDokM)")
-    pt0 = PT([c.numpy() for c in cores0], [None] * N)
-    toks = ctx.drv().call("round_sweep %s %d %s %s" % (q(case["eps"]), N - 1, " ".join(parts), pt0.ser()))
+    # ---- the orthogonalisation sweep as well: QR answers recorded from torch.linalg.qr, contract QRokM validated per call
+    qparts = []
+    if len(qrec) == N - 1:
+        okq = True
+        for (A, Qm, Rm) in qrec:
+            kq = Qm.shape[1]
+            okq = okq and float((Qm @ Rm - A).abs().max()) <= 1e-10 * max(1.0, float(A.abs().max())) and \
+                float((Qm.T @ Qm - torch.eye(kq, dtype=Qm.dtype)).abs().max()) <= 1e-10
+            qparts.append("M %d %d %s M %d %d %s" % (Qm.shape[0], kq, " ".join(q(v) for v in Qm.reshape(-1).numpy()),
+                                                    Rm.shape[0], Rm.shape[1], " ".join(q(v) for v in Rm.reshape(-1).numpy())))
+        if not okq:
+            ctx.corr("kernel contract QRokM does not hold for a recorded torch.linalg.qr call", case); return
+        ctx.count("hypotheses of roundTT_end_to_end validated (qrOK)")
+        toks = ctx.drv().call("round_full %s %d %s %d %s %s" % (q(case["eps"]), N - 1, " ".join(qparts), N - 1, " ".join(parts), t.ser()))
+    else:
+        ctx.count("sweep: %d QR calls for %d modes (orthogonalisation not replayed)" % (len(qrec), N))
+        pt0 = PT([c.numpy() for c in cores0], [None] * N)
+        toks = ctx.drv().call("round_sweep %s %d %s %s" % (q(case["eps"]), N - 1, " ".join(parts), pt0.ser()))
     if toks[0] != "ok":
         ctx.corr("model round_sweep failed: %s" % " ".join(toks[:4]), case); return
     mt = parse_tensor(toks, 1)[0]
